@@ -2,4 +2,5 @@ SPECIFICATION SpecKill
 CONSTANTS
  Scripts <- ScriptSet
  StrictCmdline <- StrictFromEnv
+ FirstRunReadsCmdline <- FirstRunFromEnv
 CHECK_DEADLOCK FALSE
